@@ -319,6 +319,31 @@ def classify(suite, desc):
     return None
 
 
+def frontend_exception(code, oid):
+    """exception code the real sync front-end (ModbusBaseRequestHandler.execute) answers, or None"""
+    from pymodbus.server.sync import ModbusBaseRequestHandler
+    from pymodbus.factory import ServerDecoder
+    from pymodbus.datastore import ModbusServerContext, ModbusSlaveContext
+    from pymodbus.framer.socket_framer import ModbusSocketFramer
+
+    class Srv(object):
+        pass
+    srv = Srv()
+    srv.context = ModbusServerContext(slaves=ModbusSlaveContext(), single=True)
+    srv.decoder, srv.framer = ServerDecoder(), ModbusSocketFramer
+    srv.ignore_missing_slaves = srv.broadcast_enable = False
+    srv.threads = []
+    out = []
+    h = ModbusBaseRequestHandler.__new__(ModbusBaseRequestHandler)
+    h.server, h.request, h.client_address = srv, None, ("scripted", 0)
+    h.setup()
+    h.send = lambda m: out.append(getattr(m, "exception_code", None))
+    req = ServerDecoder().decode(bytes([0x2b, 0x0e, code, oid]))
+    req.unit_id, req.transaction_id = 1, 1
+    h.execute(req)
+    return out[0] if out else None
+
+
 def replay_finding(f):
     w = f.get("witness", {})
     if f["id"] == F_245:
@@ -333,8 +358,12 @@ def replay_finding(f):
     if f["id"] == F_CODE0:
         install_identity([(0, b"V")])
         o = exchange(0, w.get("oid", 0), False)
+        try:
+            fe = frontend_exception(0, w.get("oid", 0))      # the witness records 4 (slave failure)
+        except Exception:  # noqa: BLE001
+            fe = None
         reset_identity()
-        return not (o[0] == "exc" and o[3] == 3)
+        return not (o[0] == "exc" and o[3] == 3) and fe != 3
     return None
 
 
